@@ -71,6 +71,8 @@ def gen(rng, tier):
         k = rng.randint(2, 6)
         n = G.random_nfa(rng, k, 'ab', rng.choice(['_', '']), names=G.tricky_names(rng, k, allow_empty=True), peps=0.3)
         cases.append({'kind': 'nfa', 'N': n, 'ws': G.words_str('ab', 3), 'sets': [rng.sample(n['Q'], 2)]})
+        d = G.retag(G.random_dfa(rng, rng.randint(2, 5), 'ab'), rng, allow_empty=True)
+        cases.append({'kind': 'dfa', 'D': d, 'ws': G.words_str('ab', 4)})
     # the same object is queried, modified in place and queried again (no result may be remembered per object)
     for _ in range(100 if quick else 1500):
         sigma = rng.choice(['a', 'ab'])
